@@ -63,7 +63,7 @@ Proof.
 Qed.
 
 Lemma fault_reply_ok : forall f c r, fault_reply f c = Some r -> reply_ok r.
-Proof. intros [] c r H; inversion H; subst; unfold reply_ok, mk_reply; cbn; exact I. Qed.
+Proof. intros [] c r H; inversion H; subst; apply reply_ok_mk; exact I. Qed.
 
 (* __send_command against a server whose next command is faulted *)
 Theorem send_command_faulted : forall f verb args nbl ql st k (w : sworld sstate),
